@@ -529,6 +529,7 @@ type Contract struct {
 	Modifies []string // heap names / ghost names / "nothing" ; nil means unspecified (=> everything for callers if trusted)
 	ModSet   bool
 	NoPanic  bool
+	SplitRet bool // "splitreturns": one postcondition obligation per return point (as done automatically for > 6 returns)
 	Trusted  bool // contract assumed, body not verified
 	Inline   bool // always inline, ignoring size limit
 	Thorough bool // only verified in the thorough tier
@@ -828,6 +829,8 @@ func ParseContractText(pkg, file, text string) (*ContractFile, error) {
 			}
 		case "nopanic":
 			cur.NoPanic = true
+		case "splitreturns":
+			cur.SplitRet = true
 		case "trusted":
 			cur.Trusted = true
 		case "inline":
